@@ -4,10 +4,31 @@ CFG = {
     "lean_theorems": "LeptosModel.Theorems.C03",
     "lean_exe": "lm_c03",
     "theorems": [
+        "Leptos.View.C03_build_mount",
+        "Leptos.View.C03_rebuild_eq_fresh",
+        "Leptos.View.C03_rebuild_eq_fresh_stage1",
+        "Leptos.View.C03_update_eq_fresh",
+        "Leptos.View.C03_rebuild_seq",
+        "Leptos.View.C03_unmount_exact",
+        "Leptos.View.C03_any_type_change",
+        "Leptos.View.C03_rebuild_eq_fresh_stmt_false",
+        "Leptos.View.C03_class_overwrite_witness",
+        "Leptos.View.C03_any_identical_value_witness",
+        "Leptos.View.C03_style_overwrite_witness",
+        "Leptos.View.C03_toggle_rename_witness",
+        "Leptos.View.C03_style_rename_witness",
+        "Leptos.View.C03_dup_item_witness",
+        "Leptos.View.rebuild_spec",
+        "Leptos.View.build_spec",
+        "Leptos.View.replace_spec",
+        "Leptos.View.inStage1_inFragment",
+        "Leptos.View.AttrsFresh_static",
+        "Leptos.View.AttrsRebuild_static",
+        "Leptos.View.Rep.ser",
     ],
     "harness_pkg": "hx-c03",
     "harness_bin": "c03",
-    "n": {"quick": 12000, "thorough": 400000},
+    "n": {"quick": 40000, "thorough": 600000},
     "trivial_tags": ["unit", "unmount", "text-same"],
     "rule": "seeded generator over a closed family of ~75 concrete tachys view types (every combinator: String, (), tuples "
             "of arity 1-4, Option, Either, EitherOf3, Vec, AnyView incl. nested, HtmlElement<Div|Span|P|Ul|Li|Input|Br> with "
@@ -33,7 +54,19 @@ CFG = {
                     "White_Space set, split_ascii_whitespace for ASCII)"],
     "manifest": {
         "category": "proof",
-        "text": "",
+        "text": "Lean 4 theorems over all view trees of the fragment (unbounded depth/width, arbitrary siblings): build+mount puts "
+                "exactly `render v` between the siblings (C03_build_mount); rebuilding a mounted state of `a` with any `b` of the same type "
+                "keeps the invariant StateOk and the parent serialises to pre ++ render b ++ post, i.e. what a fresh build+mount gives "
+                "(C03_rebuild_eq_fresh, C03_update_eq_fresh), for any list of rebuilds (C03_rebuild_seq); unmount leaves exactly pre ++ post "
+                "(C03_unmount_exact); an AnyView of another type is replaced in position by fresh nodes (C03_any_type_change). PROVED FRAGMENT: "
+                "every structural combinator (text, (), elements incl. void, tuples, Option, Either/EitherOfN, Vec, AnyView) with static "
+                "string attributes, each key once (decidable predicates View.inFragment / Ty.inStage1) = stages 1 and 3 of DESIGN C03. NOT "
+                "PROVED: stage 2 (Option/bool attribute values, class, style items) and stage 4 (keyed, not in the Lean View type). The full "
+                "statement over every attribute shape (C03_rebuild_eq_fresh_stmt) is FALSE of the code: kernel-checked refutation "
+                "C03_rebuild_eq_fresh_stmt_false plus one witness per finding class F-C03-1..5 (class-overwrite incl. the AnyView "
+                "identical-value case, style-overwrite, toggle-rename, style-rename, dup-item), each replayed on the real tachys. Tied to "
+                "the code by a differential run of the real Render/Mountable impls under the native DOM against the compiled model "
+                "(serialised children with node identity and per-node mutation counters), which also covers the unproved attribute shapes.",
         "design_ref": "DESIGN.md §7 C03",
         "note": "model hand-written, faithfulness checked by correspondence on generated inputs",
         "technique": "Lean 4 proof (staged, structural induction over view trees; separation-style invariant on the node table) "
